@@ -784,4 +784,110 @@ theorem surface_norm_le (a f N s c : ℝ) (hf : f < 1)
     have : (N * c) ^ 2 ≤ (1 - f) ^ 2 * (N * c) ^ 2 := by nlinarith [sq_nonneg (N * c)]
     nlinarith
 
+/-- 2-D excess identity in the meridian plane -/
+theorem merid_excess (a m N s c h x z : ℝ)
+    (hu : s ^ 2 + c ^ 2 = 1) (hA : N ^ 2 * (c ^ 2 + m * s ^ 2) = a ^ 2)
+    (hQ : x ^ 2 * m + z ^ 2 = a ^ 2 * m) :
+    N * m * (((N + h) * c - x) ^ 2 + ((m * N + h) * s - z) ^ 2 - h ^ 2) =
+      m * (N + h) * (x - N * c) ^ 2 + (m * N + h) * (z - m * N * s) ^ 2 := by
+  linear_combination (N * h ^ 2 * m) * hu + (h * m) * hA + (-h) * hQ
+
+/-- two `Merid` representations of the same meridian point, the first strictly on the near side: they coincide -/
+theorem merid_unique (a f s c h s' c' h' R Z : ℝ) (ha : 0 < a) (hf : f < 1)
+    (h1 : Merid a f s c h R Z) (h2 : Merid a f s' c' h' R Z)
+    (hsR : 0 < a / Real.sqrt (1 - f * (2 - f) * s ^ 2) + h)
+    (hsZ : 0 < (1 - f) ^ 2 * (a / Real.sqrt (1 - f * (2 - f) * s ^ 2)) + h) :
+    s' = s ∧ c' = c ∧ h' = h := by
+  have hm : 0 < (1 - f) ^ 2 := pow_pos (by linarith) 2
+  obtain ⟨hN, hA⟩ := primeVertical a f s c ha hf h1.unit
+  obtain ⟨hN', hA'⟩ := primeVertical a f s' c' ha hf h2.unit
+  set N := a / Real.sqrt (1 - f * (2 - f) * s ^ 2) with hNd
+  set N' := a / Real.sqrt (1 - f * (2 - f) * s' ^ 2) with hNd'
+  set m := (1 - f) ^ 2 with hmd
+  have c1R := h1.clR; have c1Z := h1.clZ; have c2R := h2.clR; have c2Z := h2.clZ
+  -- the foot points are on the ellipse
+  have hQ : (N * c) ^ 2 * m + (m * N * s) ^ 2 = a ^ 2 * m := by linear_combination m * hA
+  have hQ' : (N' * c') ^ 2 * m + (m * N' * s') ^ 2 = a ^ 2 * m := by linear_combination m * hA'
+  -- excess of the primed foot seen from the unprimed representation, and conversely
+  have e1 := merid_excess a m N s c h (N' * c') (m * N' * s') h1.unit hA hQ'
+  have e2 := merid_excess a m N' s' c' h' (N * c) (m * N * s) h2.unit hA' hQ
+  -- distances: P − Q0' = h'(c', s'),  P − Q0 = h (c, s)
+  have d1 : ((N + h) * c - N' * c') ^ 2 + ((m * N + h) * s - m * N' * s') ^ 2 = h' ^ 2 := by
+    rw [c1R, c1Z, ← c2R, ← c2Z]; linear_combination (h' ^ 2) * h2.unit
+  have d2 : ((N' + h') * c' - N * c) ^ 2 + ((m * N' + h') * s' - m * N * s) ^ 2 = h ^ 2 := by
+    rw [c2R, c2Z, ← c1R, ← c1Z]; linear_combination (h ^ 2) * h1.unit
+  rw [d1] at e1; rw [d2] at e2
+  have p1 : 0 ≤ m * (N + h) * (N' * c' - N * c) ^ 2 + (m * N + h) * (m * N' * s' - m * N * s) ^ 2 := by
+    have : 0 < m * (N + h) := mul_pos hm hsR
+    positivity
+  have p2 : 0 ≤ m * (N' + h') * (N * c - N' * c') ^ 2 + (m * N' + h') * (m * N * s - m * N' * s') ^ 2 := by
+    have : 0 ≤ m * (N' + h') := mul_nonneg hm.le h2.sideR
+    have := h2.sideZ
+    positivity
+  have hNm : 0 < N * m := by positivity
+  have hNm' : 0 < N' * m := by positivity
+  have g1 : 0 ≤ h' ^ 2 - h ^ 2 := by
+    have : 0 ≤ N * m * (h' ^ 2 - h ^ 2) := by rw [e1]; exact p1
+    exact nonneg_of_mul_nonneg_right this hNm
+  have g2 : 0 ≤ h ^ 2 - h' ^ 2 := by
+    have : 0 ≤ N' * m * (h ^ 2 - h' ^ 2) := by rw [e2]; exact p2
+    exact nonneg_of_mul_nonneg_right this hNm'
+  have hh : h' ^ 2 = h ^ 2 := by linarith
+  -- so the excess vanishes: the foot points coincide
+  have z1 : m * (N + h) * (N' * c' - N * c) ^ 2 + (m * N + h) * (m * N' * s' - m * N * s) ^ 2 = 0 := by
+    rw [← e1, hh]; ring
+  have hcpos : 0 < m * (N + h) := mul_pos hm hsR
+  have t1 : 0 ≤ m * (N + h) * (N' * c' - N * c) ^ 2 := by positivity
+  have t2 : 0 ≤ (m * N + h) * (m * N' * s' - m * N * s) ^ 2 := by positivity
+  have q1 : (N' * c' - N * c) ^ 2 = 0 := by
+    have : m * (N + h) * (N' * c' - N * c) ^ 2 = 0 := by linarith
+    rcases mul_eq_zero.mp this with h0 | h0
+    · exact absurd h0 hcpos.ne'
+    · exact h0
+  have q2 : (m * N' * s' - m * N * s) ^ 2 = 0 := by
+    have : (m * N + h) * (m * N' * s' - m * N * s) ^ 2 = 0 := by linarith
+    rcases mul_eq_zero.mp this with h0 | h0
+    · exact absurd h0 hsZ.ne'
+    · exact h0
+  have r1 : N' * c' = N * c := by have := pow_eq_zero_iff (two_ne_zero) |>.mp q1; linarith
+  have r2 : N' * s' = N * s := by
+    have := pow_eq_zero_iff (two_ne_zero) |>.mp q2
+    have : m * (N' * s' - N * s) = 0 := by linarith
+    rcases mul_eq_zero.mp this with h0 | h0
+    · exact absurd h0 hm.ne'
+    · linarith
+  have hNN : N' ^ 2 = N ^ 2 := by
+    have e : N' ^ 2 = (N' * s') ^ 2 + (N' * c') ^ 2 := by linear_combination (-(N' ^ 2)) * h2.unit
+    rw [e, r1, r2]; linear_combination (N ^ 2) * h1.unit
+  have hNeq : N' = N := by
+    have hz : (N' - N) * (N' + N) = 0 := by linear_combination hNN
+    rcases mul_eq_zero.mp hz with h0 | h0
+    · linarith
+    · exfalso; linarith
+  have hs : s' = s := by
+    rw [hNeq] at r2; exact mul_left_cancel₀ hN.ne' r2
+  have hc : c' = c := by
+    rw [hNeq] at r1; exact mul_left_cancel₀ hN.ne' r1
+  refine ⟨hs, hc, ?_⟩
+  -- h' (c, s) = h (c, s)
+  rw [hs] at c2R c2Z
+  rw [hc] at c2R
+  have k1 : (h' - h) * c = 0 := by linear_combination c2R - c1R
+  have k2 : (h' - h) * s = 0 := by linear_combination c2Z - c1Z
+  have : (h' - h) ^ 2 = 0 := by
+    have : (h' - h) ^ 2 * (s ^ 2 + c ^ 2) = 0 := by
+      have a1 : ((h' - h) * c) ^ 2 = 0 := by rw [k1]; ring
+      have a2 : ((h' - h) * s) ^ 2 = 0 := by rw [k2]; ring
+      linear_combination a1 + a2
+    rw [h1.unit, mul_one] at this; exact this
+  have := pow_eq_zero_iff (two_ne_zero) |>.mp this
+  linarith
+
+theorem nested_norm (X Y Z : ℝ) : Real.sqrt (Real.sqrt (X ^ 2 + Y ^ 2) ^ 2 + Z ^ 2) = Real.sqrt (X ^ 2 + Y ^ 2 + Z ^ 2) := by
+  rw [Real.sq_sqrt (by positivity)]
+
+theorem deg_rad (x : ℝ) : x * 180 / Real.pi * Real.pi / 180 = x := by
+  have := Real.pi_ne_zero
+  field_simp
+
 end GeoVerif.GeocentricProofs
